@@ -16,7 +16,7 @@ MatchSig(e) ==
 VARIABLE l
 Init == l = 1 /\ MismatchInit
 Next == /\ l <= Len(Rec)
-        /\ CheckC(MatchSig(NormSb(Rec[l])), l, "C05")
+        /\ CheckC(SbOpaque(NormSb(Rec[l])) \/ MatchSig(NormSb(Rec[l])), l, "C05")
         \* C02 on the fifth entry point: what validate_clvm_and_signature returns for an accepted bundle
         /\ CheckC(("vcs_r" \in DOMAIN Rec[l].res) => ObsAccepted(Rec[l].res.vcs_r), l, "C02")
         /\ l' = l + 1
